@@ -177,16 +177,17 @@ class Recon:
             except NotConst:
                 return S.unk(type(node).__name__.lower())
         if isinstance(node, (ast.ListComp, ast.GeneratorExp, ast.SetComp, ast.DictComp)):
-            if len(node.generators) == 1 and not node.generators[0].is_async:
-                # ('comp', kind, element, iterable, filters): the bound names inside are ('iter', iterable, index) terms
-                gen = node.generators[0]
+            if node.generators and not any(g.is_async for g in node.generators):
+                # ('comp', kind, element, iterable, filters): the bound names inside are ('iter', iterable, index) terms;
+                # several `for` clauses: the iterables as a tuple, all filters together (every element passes all of them)
                 kind = {ast.ListComp: "list", ast.GeneratorExp: "gen", ast.SetComp: "set", ast.DictComp: "dict"}[type(node)]
-                it = rec(gen.iter)
+                its = [rec(g.iter) for g in node.generators]
+                it = its[0] if len(its) == 1 else ("tuple", tuple(its))
                 if isinstance(node, ast.DictComp):
                     elt = ("tuple", (rec(node.key), rec(node.value)))
                 else:
                     elt = rec(node.elt)
-                return ("comp", kind, elt, it, tuple(rec(c) for c in gen.ifs))
+                return ("comp", kind, elt, it, tuple(rec(c) for g in node.generators for c in g.ifs))
             return S.unk("comp:" + ast.unparse(node)[:60])
         if isinstance(node, ast.Lambda):
             return S.unk("lambda")
@@ -208,6 +209,10 @@ class Recon:
                         if isinstance(e, ast.Name) and e.id == node.id:
                             it = self._e(ctx, gen.iter, at, binds, after, depth + 1)
                             return ("iter", it, i if isinstance(tg, (ast.Tuple, ast.List)) else None)
+                # a name bound by `:=` inside the comprehension (its filters run before the element is built)
+                for w in ast.walk(cur):
+                    if isinstance(w, ast.NamedExpr) and isinstance(w.target, ast.Name) and w.target.id == node.id and not any(x is node for x in ast.walk(w)):
+                        return self._e(ctx, w.value, at, binds, after, depth + 1)
             child = cur
             cur = parent(cur)
         return None
@@ -863,6 +868,7 @@ class Recon:
                 return self._ctype_call(ctx, node, target[1], target[2], args, kws)
             if target[0] == "attr":
                 if recv[0] == "mod" and str(recv[1]).startswith("ext:"):
+                    args, kws = _positional(f"{recv[1]}.{fn.attr}", args, kws)
                     return S.call(f"{recv[1]}.{fn.attr}", args, kws)
                 return S.call("." + fn.attr, [recv] + args, kws)
             if target[0] == "mod" and str(target[1]).startswith("ext:"):
@@ -1071,6 +1077,31 @@ def _inlineable(fdef: ast.FunctionDef) -> bool:
         if isinstance(n, ast.Call) and isinstance(n.func, ast.Attribute) and n.func.attr in _IO_ATTRS:
             return False
     return rets == 1
+
+
+# parameter names of a few standard-library functions: a keyword argument is the same call as the positional one
+_EXT_SIGNATURES = {
+    "ext:hashlib.pbkdf2_hmac": ["hash_name", "password", "salt", "iterations", "dklen"],
+    "ext:hmac.digest": ["key", "msg", "digest"],
+    "ext:hmac.new": ["key", "msg", "digestmod"],
+    "ext:hmac.compare_digest": ["a", "b"],
+    "ext:struct.unpack": ["format", "buffer"],
+    "ext:struct.unpack_from": ["format", "buffer", "offset"],
+    "ext:struct.pack": ["format"],
+    "ext:base64.b64decode": ["s"],
+    "ext:urllib.parse.unquote": ["string"],
+    "ext:zlib.decompress": ["data", "wbits", "bufsize"],
+}
+
+
+def _positional(name, args, kws):
+    sig = _EXT_SIGNATURES.get(name)
+    if not sig or not kws:
+        return args, kws
+    args, kws = list(args), dict(kws)
+    while len(args) < len(sig) and sig[len(args)] in kws:
+        args.append(kws.pop(sig[len(args)]))
+    return args, kws
 
 
 def _is_empty_container(v: ast.AST) -> bool:
